@@ -153,6 +153,13 @@ def check(run, ctx):
              and any(isinstance(x, ast.Return) and isinstance(x.value, ast.Constant) and x.value.value is True for x in n.body) for n in ast.walk(sk.node))
     (run.ok(R4, "allow_expect", "expect skipped iff allow_expect") if ok else run.finding(R4, "UnwrapAbuseRule._should_skip_call", "allow_expect", "`.expect()` is not skipped exactly when allow_expect is on", sk.loc))
 
+    from . import shared
+
+    R7 = run.rule("R7", "traversal completeness: the call finders of the three Rust linters and the shared rust walker visit every child of every node", floor=4,
+                  decides="every risky call is found wherever it sits (closures, match arms, nested blocks, macro-free expressions)")
+    for rec in shared.collector_walkers(ctx, prefixes=("src.linters.unwrap_abuse", "src.linters.clone_abuse", "src.linters.blocking_async", "src.analyzers.rust_base")):
+        (run.ok(R7, rec["func"], rec["detail"]) if rec["ok"] else run.finding(R7, rec["func"], "pruned-walk", f"{rec['func']}: {rec['detail']}: calls below such a node are never reported", rec["loc"]))
+
     R5 = run.rule("R5", "node-kind literals in the Rust analyzers (shared and per linter) are named kinds / fields of the linked grammar", floor=40)
     g = ctx.grammar
     mods = [m for m in repo.modules.values() if kinds.module_language(m.name) == "rust" and not m.name.startswith("src.linters.nesting")]
